@@ -56,7 +56,7 @@ def plan(tier, seed):
             shards.append({'kind': 'random', 'part': i, 'n': 300})
     else:
         for i in range(46):
-            shards.append({'kind': 'random', 'part': i, 'n': 6000})
+            shards.append({'kind': 'random', 'part': i, 'n': 4000})
     return shards
 
 
